@@ -55,7 +55,8 @@ class Net:
             self.wire[('q', k)] = self.hw.wire('q%d' % k, rg['w'])
         self.done = []                  # items instantiated so far, in order
         self.obj = {}                   # item -> py4hw object
-        self.leaf_items = []            # propagatable items in instantiation order (leaf index = position)
+        self.leaf_items = []            # combinational blocks in instantiation order (= leaf index when none is structural)
+        self.has_struct = any(nd['kind'] == 'xor2' for nd in spec['nodes'])
 
     def instantiate(self, items):
         py4hw, hw, W = self.py4hw, self.hw, self.wire
@@ -79,14 +80,19 @@ class Net:
                     elif k == 'catl': ob = py4hw.ConcatenateLSBF(hw, name, ins, outs[0])
                     elif k == 'bitsl': ob = py4hw.BitsLSBF(hw, name, ins[0], outs)
                     elif k == 'gate': ob = gate_class()(hw, name, ins, outs)
+                    elif k == 'xor2': ob = py4hw.Xor2(hw, name, ins[0], ins[1], outs[0])      # structural: 4 Nand2 = 8 leaves
                     else: raise ValueError(k)
                     self.obj[it] = ob
                     self.leaf_items.append(it)
                 self.done.append(it)
 
     # ---- the leaf dependency graph, read off the live objects the way findFirstDependentPosition does
+    def leaves(self):
+        """the propagatable leaves in HWSystem.allLeaves() order: the initial list of Simulator.topologicalSort"""
+        return [o for o in self.hw.allLeaves() if o.isPropagatable()]
+
     def live_graph(self):
-        leaves = [self.obj[it] for it in self.leaf_items]
+        leaves = self.leaves()
         idx = {id(o): i for i, o in enumerate(leaves)}
         tbl = []
         for o in leaves:
@@ -100,7 +106,7 @@ class Net:
         return tbl
 
     def all_leaves_order(self):
-        """hw.allLeaves() restricted to propagatables, as leaf indices (must be 0..n-1: instantiation order)"""
+        """flat netlists: hw.allLeaves() restricted to propagatables, as block indices (must be 0..n-1: instantiation order)"""
         idx = {id(self.obj[it]): i for i, it in enumerate(self.leaf_items)}
         return [idx.get(id(o), -1) for o in self.hw.allLeaves() if o.isPropagatable()]
 
@@ -112,7 +118,7 @@ class Net:
         except Exception as ex:             # the documented refusal is a bare Exception('Excessive loop count ...')
             return ('raise', '%s: %s' % (type(ex).__name__, ex))
         self.sim = sim
-        idx = {id(self.obj[it]): i for i, it in enumerate(self.leaf_items)}
+        idx = {id(o): i for i, o in enumerate(self.leaves())}
         return ('ok', [idx.get(id(o), -1) for o in sim.propagatables])
 
     def values(self):
@@ -186,6 +192,7 @@ def node_fn(nd, vals, widths):
         v = 0
         for x in vals: v ^= x
         r = [v + o + 1 for o in range(len(outs))]
+    elif k == 'xor2': r = [vals[0] ^ vals[1]]          # inputs and output have the same width by construction
     else: raise ValueError(k)
     return [mask(x, w) for x, w in zip(r, outs)]
 
@@ -217,7 +224,7 @@ def denote(spec, present, base):
 
 
 # ------------------------------------------------------------------ generators
-def rand_netlist(rng, n, flavour='dag', n_in=2, n_regs=0, lib_only=True):
+def rand_netlist(rng, n, flavour='dag', n_in=2, n_regs=0, lib_only=True, struct=False):
     """random netlist whose combinational part is a DAG in the hidden order 0..n-1, then made cyclic / self-looping on
     request; instantiation order random (sometimes exactly reversed = worst case, sometimes dataflow order)."""
     spec = {'inputs': [rng.randint(1, 5) for _ in range(n_in)], 'nodes': [], 'regs': [], 'order': [], 'split': None}
@@ -229,6 +236,7 @@ def rand_netlist(rng, n, flavour='dag', n_in=2, n_regs=0, lib_only=True):
             return list(rng.choice(outs_so_far[-6:] if rng.random() < .6 else outs_so_far))
         return list(rng.choice(pool_in))
     kinds = ['buf', 'not', 'and2', 'or2', 'and2', 'or2', 'mux2', 'const', 'catm', 'catl', 'bitsl'] + ([] if lib_only else ['gate', 'gate'])
+    if struct: kinds += ['xor2', 'xor2']
     for j in range(n):
         k = rng.choice(kinds); nd = {'kind': k, 'ins': [], 'outs': [rng.randint(1, 5)], 'const': 0}
         if k in ('buf', 'not'): nd['ins'] = [pick()]
@@ -246,6 +254,9 @@ def rand_netlist(rng, n, flavour='dag', n_in=2, n_regs=0, lib_only=True):
             else: nd['ins'] = [r]; nd['outs'] = [1] * ref_width(spec, r)
         elif k == 'gate':
             nd['ins'] = [pick() for _ in range(rng.randint(0, 4))]; nd['outs'] = [rng.randint(1, 4) for _ in range(rng.randint(1, 3))]
+        elif k == 'xor2':
+            a = pick(); same = [r for r in pool_in + outs_so_far if ref_width(spec, r) == ref_width(spec, a)]
+            nd['ins'] = [a, list(rng.choice(same))]; nd['outs'] = [ref_width(spec, a)]
         spec['nodes'].append(nd)
         for o in range(len(nd['outs'])): outs_so_far.append(['n', j, o])
     for rg in spec['regs']:
